@@ -173,9 +173,11 @@ class Reply:
 
 
 class Handler:
-    def __init__(self, kind, fn, args=None, ret="", reply=None, script=True, failarg=False):
+    def __init__(self, kind, fn, args=None, ret="", reply=None, script=True, failarg=False, ctx=None, alias=None):
         self.kind = kind
         self.fn = fn
+        self.ctx = ctx  # context type written in the signature when it is not the kind's own
+        self.alias = alias  # second wire name forwarded with #[sv::attr(serde(alias = ".."))]
         self.args = list(args or [])
         self.ret = ret
         self.reply = reply
@@ -241,9 +243,10 @@ class Contract:
         remote_slots=(),
         legacy_ctx=False,
         stateful=False,
+        name=None,
     ):
         self.mod = mod
-        self.name = cc_upper_camel(mod)
+        self.name = name or cc_upper_camel(mod)
         self.family = family
         self.handlers = handlers
         for h in handlers:
@@ -381,6 +384,21 @@ def body_mut(h, glue, hid, with_info):
 
 
 def body_query(h, glue, hid):
+    if any(a.ty == "Script" for a in h.args) and h.ret == "String":
+        # a query handler that takes a script relays the script's queries to the peers it names
+        sname = [a.name for a in h.args if a.ty == "Script"][0]
+        rest = [a for a in h.args if a.ty != "Script" and a.name != "fail"]
+        keep = STATEFUL[0]
+        STATEFUL[0] = False
+        key = json_args(rest)
+        STATEFUL[0] = keep
+        return """{
+        let __c = ctx_echo(ctx.deps, &ctx.env, None);
+        bb::enter(<%s as Glue>::CID, "%s", %s, __c);
+        let __r = match script::run_queries::<%s>(ctx.deps, &%s) { Ok(answers) => Ok(format!("%s|{}|{}", %s, answers)), Err(e) => Err(e) };
+        bb::exit(<%s as Glue>::CID, "%s", match &__r { Ok(v) => json!({"ok": j(v)}), Err(e) => json!({"err": <%s as Glue>::describe(e)}) });
+        __r
+    }""" % (glue, hid, json_args(h.args), glue, sname, hid, key, glue, hid, glue)
     fail = (
         "if let Some(code) = fail { Err(<%s as Glue>::fail(code)) } else " % glue
         if any(a.name == "fail" for a in h.args)
@@ -438,7 +456,14 @@ def reply_params(h):
     else:
         params.append("result: SubMsgResult")
         echo.append('"result": j(&result)')
-    if r.payload_raw:
+    if getattr(r, "decoy_raw", False):
+        # the marker sits on this method only; the method declared first (unmarked) decides, so
+        # the value travels typed for both
+        a = r.payload[0]
+        params.append("#[sv::payload(raw)] %s: %s" % (a.name, a.ty))
+        echo.append('"%s": j(&%s)' % (a.wire, a.name))
+        script = "&Script::default()"
+    elif r.payload_raw:
         params.append("#[sv::payload(raw)] payload: Binary")
         echo.append('"payload": bb::bytes_text(payload.as_slice())')
         script = "&script::script_from_raw_payload(payload.as_slice())"
@@ -481,7 +506,8 @@ def body_reply(h, glue, hid):
 
 def msg_attr(h):
     if h.kind != "reply":
-        return "#[sv::msg(%s)]" % h.kind
+        extra = '\n        #[sv::attr(serde(alias = "%s"))]' % h.alias if h.alias else ""
+        return "#[sv::msg(%s)]%s" % (h.kind, extra)
     r = h.reply
     if r.legacy:
         return "#[sv::msg(reply)]"
@@ -805,12 +831,12 @@ def emit_contract_inner(c, iface_path):
                     "#[allow(deprecated)] " if c.legacy_ctx else "",
                     h.fn,
                     "sylvia::types::" if c.legacy_ctx else "",
-                    CTX[h.kind],
+                    h.ctx or CTX[h.kind],
                     q,
                     rust_args(h.args),
                     m,
                     c.err_ty(),
-                    body_mut(h, "G", hid, h.kind in ("instantiate", "exec")),
+                    body_mut(h, "G", hid, (h.ctx or CTX[h.kind]) in ("InstantiateCtx", "ExecCtx")),
                 )
             )
     w("    }")
@@ -894,12 +920,13 @@ def emit_spec(c):
             rs = "None"
         wire = wire_of(h.fn) if h.kind in ("exec", "query", "sudo") else ""
         hs.append(
-            'HandlerSpec { kind: Kind::%s, part: "%s", fn_name: "%s", wire: "%s", regular: %s, args: %s, ret: "%s", reply: %s }'
+            'HandlerSpec { kind: Kind::%s, part: "%s", fn_name: "%s", wire: "%s", alias: "%s", regular: %s, args: %s, ret: "%s", reply: %s }'
             % (
                 KIND_ENUM[h.kind],
                 h.part,
                 h.fn,
                 wire,
+                h.alias or "",
                 "true" if is_regular(h.fn) else "false",
                 spec_args(h.args, tmap),
                 tmap.get(h.ret, h.ret),
@@ -1501,6 +1528,33 @@ def family_f3(rng):
             err="std",
         )
     )
+    # names shared with earlier programs of the crate, at other positions, next to new ones
+    cs.append(
+        mk(
+            "overlap_z",
+            [
+                Handler("reply", "both_any", reply=Reply(["both"], "always", **PAY_RAW)),
+                Handler("reply", "alw", reply=Reply([], "always", **PAY_RAW)),
+                Handler("reply", "x1", reply=Reply([], "always", **PAY_RAW)),
+                Handler("reply", "second", reply=Reply([], "success", **PAY_RAW)),
+                Handler("reply", "x2", reply=Reply([], "error", **PAY_RAW)),
+            ],
+        )
+    )
+    # one name, two methods with a lone Binary payload, the raw marker on the second only
+    mixed_err = Reply(["mix"], "error", payload=[Arg("blob", "Binary")])
+    mixed_err.decoy_raw = True
+    cs.append(
+        mk(
+            "mixed_raw",
+            [
+                Handler("reply", "mix_ok", reply=Reply(["mix"], "success", payload=[Arg("blob", "Binary")])),
+                Handler("reply", "mix_err", reply=mixed_err),
+                Handler("reply", "plain", reply=Reply([], "always", **PAY_ONE)),
+            ],
+            err="std",
+        )
+    )
     PAY_BIG = dict(payload=[Arg("amount", "u128"), Arg("delta", "i128"), Arg("script", "Script")])
     cs.append(
         mk(
@@ -1828,6 +1882,59 @@ def family_f1(rng):
             ],
             uses=[Use(clash)],
             err="own",
+            tags=T + ("regular",),
+        )
+    )
+    # handlers whose context parameter is written with the type of another kind built from the
+    # same parts (the annotation decides the kind, not the type)
+    cs.append(
+        Contract(
+            "px",
+            "f1",
+            [
+                Handler("instantiate", "instantiate", [Arg("a", "u32")], ctx="ExecCtx"),
+                Handler("migrate", "migrate", [Arg("a", "u32")], ctx="SudoCtx"),
+                Handler("exec", "go"),
+                Handler("exec", "as_inst", [Arg("n", "u32")], ctx="InstantiateCtx"),
+                Handler("query", "probe", [Arg("x", "u32")], ret="u64", failarg=True),
+                Handler("sudo", "nudge", [Arg("n", "u64")]),
+                Handler("sudo", "rotate", [Arg("key", "u32")], ctx="MigrateCtx"),
+            ],
+            uses=[Use(lib["alpha"])],
+            err="own",
+            tags=T + ("regular",),
+        )
+    )
+    # two contract types spelled the same in different modules; a method of the same name is a
+    # migrate handler in one and a sudo handler in the other
+    cs.append(
+        Contract(
+            "pt",
+            "f1",
+            std_handlers(rng, migrate=False) + [Handler("migrate", "upgrade", [Arg("version", "u32")]), Handler("exec", "renew", [Arg("n", "u32")])],
+            err="own",
+            name="Same",
+            tags=T + ("regular",),
+        )
+    )
+    cs.append(
+        Contract(
+            "py",
+            "f1",
+            std_handlers(rng, migrate=False) + [Handler("sudo", "upgrade", [Arg("version", "u32")]), Handler("sudo", "renew", [Arg("n", "u32")])],
+            err="own",
+            name="Same",
+            tags=T + ("regular",),
+        )
+    )
+    # a second wire name forwarded to the generated variant
+    cs.append(
+        Contract(
+            "pz",
+            "f1",
+            std_handlers(rng, extra=[Handler("exec", "retitle", [Arg("title", "String")], alias="old_retitle"), Handler("query", "titled", [Arg("k", "String")], ret="String", alias="old_titled")]),
+            uses=[Use(lib["eps"])],
+            err="std",
             tags=T + ("regular",),
         )
     )
